@@ -92,7 +92,7 @@ where
 
 pub fn case(idx: u64, seed: u64, p: &Params, o: &mut CaseOut) {
     let mut r = Rng::for_case(15, seed, idx);
-    let max = p.usize("max_order", 129);
+    let max = p.usize("max_order", 257);
     let part = r.below(20);
     if part == 0 {
         // next_f64 lies in [0, 1)
@@ -129,7 +129,7 @@ pub fn case(idx: u64, seed: u64, p: &Params, o: &mut CaseOut) {
         2..=5 => r.range(1, max.min(17)),
         6..=7 => r.range(1, max.min(64)),
         8 => *r.pick(&[31usize, 32, 33, 63, 64, 65]).min(&max),
-        _ => *r.pick(&[100usize, 129]).min(&max),
+        _ => *r.pick(&[100usize, 129, 257]).min(&max),
     };
     let (x, y, z) = (r.next(), r.next(), r.next());
     let gseed = *r.pick(&[0u64, 1, 1 << 63, u64::MAX, x, y, z]);
